@@ -477,8 +477,35 @@ def rule_idle_removed(ctx: Ctx) -> RuleResult:
     return rr
 
 
+def rule_batch_dispatch(ctx: Ctx) -> RuleResult:
+    """SelectEventLoop._loop and ZMQEventLoop._loop first collect every ready descriptor and then call the callbacks
+    one after the other.  'After the watch is removed its callback never runs' therefore needs a check at call time:
+    inside the dispatch loop over the ready set the callback is called only under a test that the watch is still in
+    the registry (it may have been removed by an earlier callback of the same batch)."""
+    from ..rules.exc import ExcEngine
+
+    p = ctx.p
+    rr = RuleResult("SNAP", "C13.11", "select / zmq call the callback of a ready descriptor only if its watch is still registered", floor=2)
+    for key, reg in (("select", "_watch_files"), ("zmq", "_queue_callbacks")):
+        lp = p.func(f"{LOOPS[key]}._loop")
+        du = DefUse(lp)
+        cfg = du.cfg
+        ready = {nm for nm, ds in du.defs.items() for _dn, v, _how in ds if isinstance(v, ast.AST) and any(isinstance(x, ast.Call) and isinstance(x.func, ast.Attribute) and x.func.attr in ("select", "poll") for x in ast.walk(v))}
+        loops = [h for h in cfg.nodes if h.kind == "for" and isinstance(h.ast.iter, ast.Name) and h.ast.iter.id in ready]
+        if not loops:
+            raise AnalysisError(f"{key}._loop: the dispatch loop over the ready set was not found")
+        for h in loops:
+            body_calls = [n for n in cfg.nodes if n.ast is not None and n.kind not in ("for", "test") and any(x is n.ast or x is getattr(n, "stmt", None) for x in ast.walk(h.ast)) and any(isinstance(c, ast.Call) and (isinstance(c.func, ast.Subscript) or (isinstance(c.func, ast.Attribute) and c.func.attr == "data")) for c in ast.walk(n.ast))]
+            tests = [t for t in cfg.nodes if t.kind == "test" and reg in ast.unparse(t.ast) and any(x is t.ast for x in ast.walk(h.ast))]
+            rr.inst(f"{key}._loop dispatch", True, {"loop": key, "calls": [norm(c.stmt, 40) for c in body_calls], "membership_tests": [norm(t.ast, 60) for t in tests]})
+            for c in body_calls:
+                if not any(c not in ExcEngine._reach_without_edge(cfg, t, "T") for t in tests):
+                    rr.add(finding("SNAP", lp, c.stmt, f"`{norm(c.stmt, 50)}` calls the callback of a descriptor from the ready batch without testing that its watch is still in self.{reg}: a watch removed by an earlier callback of the same batch still runs once ({'KeyError out of run()' if key == 'zmq' else 'after remove_watch_file returned True'})", construct="ready batch dispatched without membership test"))
+    return rr
+
+
 def run(ctx: Ctx):
-    return [rule_wrap(ctx), rule_snap(ctx), rule_idle_arming(ctx), rule_remove_returns(ctx), rule_select_zmq(ctx), rule_trio_checkpoint(ctx), rule_presence(ctx), rule_handle_unique(ctx), rule_twisted_idle_flag(ctx), rule_idle_removed(ctx)]
+    return [rule_wrap(ctx), rule_snap(ctx), rule_idle_arming(ctx), rule_remove_returns(ctx), rule_select_zmq(ctx), rule_trio_checkpoint(ctx), rule_presence(ctx), rule_handle_unique(ctx), rule_twisted_idle_flag(ctx), rule_idle_removed(ctx), rule_batch_dispatch(ctx)]
 
 
 from ..mutants import Mut  # noqa: E402
@@ -486,6 +513,7 @@ from ..mutants import Mut  # noqa: E402
 _S = "urwid/event_loop/select_loop.py"
 _A = "urwid/event_loop/asyncio_loop.py"
 MUTANTS = [
+    Mut("select-batch-calls-removed-watch", "urwid/event_loop/select_loop.py", "SelectEventLoop._loop", "            if self._watch_files.get(record.fd) is record.data:\n                record.data()\n                self._did_something = True", "            record.data()\n            self._did_something = True", "SNAP|event_loop.select_loop.SelectEventLoop._loop"),
     Mut("select-idle-pass-calls-removed", "urwid/event_loop/select_loop.py", "SelectEventLoop._entering_idle", "        for handle, callback in list(self._idle_callbacks.items()):\n            # a callback removed by an earlier one in this pass is not called\n            if handle in self._idle_callbacks:\n                callback()", "        for callback in list(self._idle_callbacks.values()):\n            callback()", "SNAP|event_loop.select_loop.SelectEventLoop._entering_idle"),
     Mut("tornado-handle-from-dict-size", "urwid/event_loop/tornado_loop.py", "TornadoEventLoop.watch_file", "        self._max_watch_handle += 1\n        handle = self._max_watch_handle\n", "        handle = len(self._watch_handles) + 1\n", "TAB|event_loop.tornado_loop.TornadoEventLoop.watch_file"),
     Mut("twisted-idle-flag-lowered-in-loop-only", "urwid/event_loop/twisted_loop.py", "TwistedEventLoop._twisted_idle_callback", "            callback()\n        self._twisted_idle_enabled = False", "            self._twisted_idle_enabled = False\n            callback()", "PASS|event_loop.twisted_loop.TwistedEventLoop._twisted_idle_callback"),
